@@ -114,6 +114,8 @@ def run(ctx, drv):
             if kind == "integer" and rng.random() < 0.3 and n >= 2:
                 Amat[-1] = [a * 2 for a in Amat[0]]          # exactly singular
             b = [float(rng.randrange(-5, 6)) if kind == "integer" else rng.uniform(-2, 2) for _ in range(n)]
+            if rng.random() < 0.08:
+                b = [0.0] * n                           # homogeneous system: x = 0 for a regular A, singularity for a singular one
         inp = {"A": Amat, "b": b, "kind": kind}
         x = call_lsolve(Amat, b)
         obs = x if isinstance(x, str) else "x " + " ".join(wf(v) for v in x)
